@@ -163,7 +163,7 @@ def e2e(ctx, variant, found):
         raise kit.Inconclusive("only %d e2e behaviours" % len(behs))
     # directed behaviours (shortest path into a named window, by trap invariant)
     directed = 0
-    for trap in (("latch", "stalemark") if t else ("latch",)):
+    for trap in ("latch", "stalemark"):
         for policy in (("rr", "random", "lc") if t else ("rr",)):
             bs = emit(ctx, "BalanceE2EGen", "Trap_BalanceE2E_%s_%s_%s.cfg" % (trap, policy, variant), "TRAP")
             if not bs:
@@ -279,7 +279,7 @@ def e2e(ctx, variant, found):
                     "observed": [{k: v for k, v in o.items() if v not in (None, [], 0, False, "")} for o in results[0]["obs"]]})
     # a closure deadline of 200 ms is used in the main run; every latch finding is re-run once with a
     # generous deadline and only reported if the relay is still open then
-    generous = 10000 if t else 5000
+    generous = 10000 if t else 3000
     for sig in list(found):
         if not (sig.startswith("removed-latch-not-closed") and found[sig]["art"]["kind"] == "c06-e2e"):
             continue
